@@ -13,6 +13,10 @@ ALLKEYS = ('a', 'b', 'c', 'd', 'e')
 RING_LIMIT = 64
 
 
+class OnMissFailed(Exception):
+    """Raised by the on_miss callback of the 'raise' mode (and by the reference model at the same place)."""
+
+
 class Ref:
     """Reference cache: recency list oldest -> newest, counters, on_miss log."""
 
@@ -54,8 +58,10 @@ class Ref:
             return p[1]
         self.miss += 1
         if self.on_miss:
-            v = ('m', k)
             self.log.append(k)
+            if self.on_miss == 'raise' and k == 'b':
+                raise OnMissFailed(k)            # the callback raised: nothing to cache
+            v = None if self.on_miss == 'none' else ('m', k)
             self.set(k, v)
             return v
         raise KeyError(k)
@@ -118,6 +124,8 @@ class Ref:
                 self.order = []; return ('ok', None)
         except KeyError:
             return ('exc', 'KeyError')
+        except OnMissFailed:
+            return ('exc', 'OnMissFailed')
         raise AssertionError(op)
 
 
@@ -132,7 +140,9 @@ class St:
 
             def fn(k):
                 log.append(k)
-                return ('m', k)
+                if on_miss == 'raise' and k == 'b':
+                    raise OnMissFailed(k)
+                return None if on_miss == 'none' else ('m', k)
         self.fn = fn
         self.c = cls(max_size=max_size, on_miss=fn)
 
@@ -244,7 +254,7 @@ class Spec:
         self.clsname, self.max_size, self.on_miss = clsname, max_size, on_miss
         self.values = tuple(values)
         self.keys = ALLKEYS[:nkeys or (max_size + 1)]
-        self.config = {'class': clsname, 'max_size': max_size, 'on_miss': bool(on_miss), 'keys': list(self.keys),
+        self.config = {'class': clsname, 'max_size': max_size, 'on_miss': on_miss, 'keys': list(self.keys),
                        'values': list(self.values)}
         self.menu = self._menu()
 
@@ -295,7 +305,7 @@ class Spec:
                 st2.c = st.c.copy()
                 st = st2
                 ref = ref.copy()
-                ref.on_miss = st.c.on_miss is not None
+                ref.on_miss = ref.on_miss if st.c.on_miss is not None else False
                 ref.log = list(st.log)
             else:
                 r = impl_apply(st.c, op)
@@ -467,7 +477,7 @@ class Spec:
         st2 = St.__new__(St)
         st2.log, st2.fn, st2.c = st.log, st.fn, c2
         ref2 = ref.copy()
-        ref2.on_miss = c2.on_miss is not None
+        ref2.on_miss = ref.on_miss if c2.on_miss is not None else False
         ref2.log = list(st.log)
         # eviction order of the copy and (still) of the source
         h2 = hist + (('copy',),)
@@ -523,6 +533,10 @@ def configs(tier):
                 if ms >= 4 and om:
                     continue      # on_miss values multiply the max_size=4 space beyond a 10-minute search
                 out.append((cls, ms, om))
+        # callbacks that return None (a value that looks like "nothing") or raise for one key
+        for ms in ((2,) if tier == 'quick' else (1, 2, 3)):
+            out.append((cls, ms, 'none'))
+            out.append((cls, ms, 'raise'))
     return out
 
 
